@@ -35,7 +35,7 @@ from pav.rig import SockRig, make_header, registry
 ID = "C01"
 LEVEL = "exploration"
 RULE = ("stateful (rule-based) generation of socket histories: send batches / link loss / connect scripts / clock "
-        "advances below the lifetimes / write pauses; plus list-generated runs of 260..600 sends across outages. "
+        "advances below the lifetimes (and outages in which a short-lived message expires among longer-lived ones) / write pauses; plus list-generated runs of 260..600 sends across outages. "
         "Non-trivial history: >= 2 messages pending together during an outage that ended in a connection, or >= 2 "
         "tasks submitting in the same instant, or the packet counter wrapped; distinct by operation trace")
 ASSUMPTIONS = [
@@ -74,7 +74,13 @@ class Interp:
         raise Violation(f"C01:{key}", what, self.case())
 
     def pending(self):
-        return self.accepted[self.checked_frames:]
+        """Messages waiting for a connection (accepted while down, no connection since, lifetime not elapsed)."""
+        out = []
+        for a in self.accepted:
+            due, dead = self.due_of(a)
+            if due is None and not dead:
+                out.append(a)
+        return out
 
     def min_remaining(self) -> float:
         now = self.rig.loop.time()
@@ -145,6 +151,10 @@ class Interp:
     def op_advance(self, dt):
         self.rig.loop.advance(dt)
 
+    def op_advance_free(self, dt):
+        """Advance without regard to lifetimes (pending messages may expire)."""
+        self.rig.loop.advance(dt)
+
     def op_pause(self):
         cur = self.rig.net.current
         if cur is not None and cur.alive:
@@ -160,6 +170,16 @@ class Interp:
         pass
 
     # ------------------------------------------------------------------ oracle
+    def due_of(self, a):
+        """(due instant | None, dead).  A message accepted while the link was down is due at the instant the next
+        connection is established; if its lifetime has elapsed by then it is dead (it must never be transmitted)."""
+        if a["connected"]:
+            return a["t"], False
+        later = [e[0] for e in self.rig.net.log[a["logpos"]:] if e[1] == "open"]
+        if later:
+            return later[0], later[0] >= a["expiry"]
+        return None, self.rig.loop.time() >= a["expiry"]
+
     def check(self):
         net = self.rig.net
         frames = []  # (frame, t_first_byte, cid)
@@ -169,7 +189,6 @@ class Interp:
             if pr.error or pr.incomplete or pr.consumed != len(wire):
                 self.bad("stream-not-frames", f"connection {tr.cid}: bytes do not parse as whole frames "
                                               f"(error={pr.error}, incomplete={pr.incomplete}): {wire.hex()[:200]}")
-            # timestamp of the write holding each frame's first byte
             offs = []
             pos = 0
             for t, b in tr.writes:
@@ -180,43 +199,44 @@ class Interp:
                 while k + 1 < len(offs) and offs[k + 1][0] <= fr.start:
                     k += 1
                 frames.append((fr, offs[k][1], tr.cid))
-        if len(frames) > len(self.accepted):
-            extra = frames[len(self.accepted)][0]
-            self.bad("extra-frame", f"{len(frames)} frames on the wire for {len(self.accepted)} accepted messages; "
-                                    f"first extra: type={extra.mtype:#x} data={extra.data.hex()}")
+        live = []
+        n_dead = 0
+        for idx, a in enumerate(self.accepted):
+            due, dead = self.due_of(a)
+            if dead:
+                n_dead += 1
+                continue
+            live.append((idx, a, due))
+        if n_dead:
+            self.nt.add("expired-among-pending")
+        if len(frames) > len(live):
+            extra = frames[len(live)][0]
+            self.bad("extra-frame", f"{len(frames)} frames on the wire for {len(live)} accepted messages that were alive when "
+                                    f"a connection existed; first extra: type={extra.mtype:#x} data={extra.data.hex()}")
         for i, (fr, t_tx, cid) in enumerate(frames):
-            a = self.accepted[i]
+            idx, a, due = live[i]
             to, frm, pid, mtype, data = a["exp"]
             got = (fr.to, fr.frm, fr.mtype, fr.data)
             if got != (to, frm, mtype, data):
-                kind = "duplicate-or-substituted"
-                self.bad(kind, f"frame #{i} on the wire is to={fr.to:#x} from={fr.frm:#x} type={fr.mtype:#x} "
-                               f"data={fr.data.hex()} but accepted message #{i} ({a['kind']}) is to={to:#x} from={frm:#x} "
-                               f"type={mtype:#x} data={data.hex()}")
+                self.bad("duplicate-or-substituted", f"frame #{i} on the wire is to={fr.to:#x} from={fr.frm:#x} type={fr.mtype:#x} "
+                                                     f"data={fr.data.hex()} but the next accepted message still alive (#{idx}, {a['kind']}) "
+                                                     f"is to={to:#x} from={frm:#x} type={mtype:#x} data={data.hex()}")
             if pid is not None and fr.pid != pid:
                 self.bad("header-pid", f"frame #{i}: packet id {fr.pid} != submitted {pid}")
-            if i >= self.checked_frames:
-                if a["connected"]:
-                    due = a["t"]
-                else:
-                    later = [e[0] for e in net.log[a["logpos"]:] if e[1] == "open"]
-                    due = later[0] if later else None
-                if due is None or t_tx != due:
-                    self.bad("late-or-early", f"message #{i} accepted at t={a['t']} (connected={a['connected']}) was "
-                                              f"written at t={t_tx}, expected at t={due}")
-                if t_tx >= a["expiry"]:
-                    self.bad("harness", "harness let a lifetime elapse")
+            if due is None or t_tx != due:
+                self.bad("late-or-early", f"message #{idx} accepted at t={a['t']} (connected={a['connected']}) was "
+                                          f"written at t={t_tx}, expected at t={due}")
         if frames and self.checked_frames < len(frames):
-            # pending during an outage that ended in a connection
-            newly = self.accepted[self.checked_frames:len(frames)]
+            newly = [a for _i, a, _d in live[self.checked_frames:len(frames)]]
             if sum(1 for a in newly if not a["connected"]) >= 2:
                 self.nt.add("multi-pending-outage")
         self.checked_frames = len(frames)
         if self.connected and not (net.current and net.current.write_paused):
-            if len(frames) != len(self.accepted):
-                a = self.accepted[len(frames)]
-                self.bad("lost", f"client is connected at a settled instant but accepted message #{len(frames)} "
-                                 f"({a['kind']}, accepted t={a['t']}) is not on the wire ({len(frames)}/{len(self.accepted)})")
+            if len(frames) != len(live):
+                idx, a, _d = live[len(frames)]
+                self.bad("lost", f"client is connected at a settled instant but accepted message #{idx} "
+                                 f"({a['kind']}, accepted t={a['t']}, lifetime until t={a['expiry']}) is not on the wire "
+                                 f"({len(frames)}/{len(live)})")
         if net.max_open > 1:
             self.bad("two-connections", "more than one connection open at once")
 
@@ -307,6 +327,28 @@ def make_machine(gen: int, stats: Stats):
                     self._do(["advance", gap])
             self._do(["advance", 2.0 * k + lat + 0.125])
 
+        @rule(how=st.sampled_from(["eof", "reset"]), first=_send_item(gen), second=_send_item(gen), third=_send_item(gen),
+              order=st.integers(0, 5))
+        def outage_with_expiry(self, how, first, second, third, order):
+            """Link down; a long-lived, a short-lived and another long-lived message are accepted (any order); the clock
+            passes the short lifetime only; a further send; then the connection comes up."""
+            items = [[first[0], first[1], [first[2][0] if isinstance(first[2], list) else 1, 30.0], first[3]],
+                     [second[0], second[1], [0, 1.0], second[3]],
+                     [third[0], third[1], "idem", third[3]]]
+            perm = [[0, 1, 2], [0, 2, 1], [1, 0, 2], [1, 2, 0], [2, 0, 1], [2, 1, 0]][order]
+            self._do(["script", [["refuse", 0.0], ["refuse", 0.0], ["accept", 0.0]]])
+            self._do(["down", how])
+            if self.x.connected:
+                return
+            room = 10 - len(self.x.pending())
+            batch = [items[k] for k in perm][:max(0, room)]
+            for it in batch[:2]:
+                self._do(["send", [it]])
+            self._do(["advance_free", 1.5])
+            for it in batch[2:]:
+                self._do(["send", [it]])
+            self._do(["advance_free", 3.0])
+
         @rule()
         def pause(self):
             self._do(["pause"])
@@ -381,7 +423,7 @@ def shards(tier: str):
 
 
 def floors(tier: str):
-    return {"multi-pending-outage": 30, "same-instant-batch": 60, "wrap-256": 2}
+    return {"multi-pending-outage": 30, "same-instant-batch": 60, "wrap-256": 2, "expired-among-pending": 30}
 
 
 def run_shard(spec, seed: int, tier: str):
